@@ -11,7 +11,7 @@ if [ -z "${SKIP_REPO_TESTS:-}" ]; then
   if go build ./... && go test -vet=off -count=1 . >/tmp/selftest.log 2>&1; then echo "repo tests: pass"; else echo "repo tests: FAIL (see /tmp/selftest.log)"; fi
 fi
 for id in "$@"; do
-  out=$(cd /verif && ./check "$id" ${TIER:+--tier $TIER} --replays /tmp/selftest-replays 2>&1)
+  out=$(cd /verif && ./check "$id" ${TIER:+--tier $TIER} --replays /tmp/selftest-replays --evidence /tmp/selftest-evidence.json 2>&1)
   rc=$?
   echo "check $id rc=$rc: $(echo "$out" | grep -c '^VIOLATION') violation line(s)"
   echo "$out" | grep -A1 '^VIOLATION' | grep 'sig=' | cut -c1-220 | head -5
